@@ -870,12 +870,17 @@ func (t *Teamserver) EventListenerError(ListenerName string, Error error) {
 		}
 		t.EventsList = append(t.EventsList, pk)
 		t.EventsMtx.Unlock()
+
+		// tell the operators, also before the name can be taken again: a client applies the
+		// error to the listener of that name it knows at that moment
+		t.EventBroadcast("", pk)
 	}
 	t.ListenersMtx.Unlock()
 
-	// tell the operators (when the name is not ours any more this is all: nothing of it is
-	// kept for newcomers)
-	t.EventBroadcast("", pk)
+	if !stillOurs {
+		// the name is not ours any more: this is all, nothing of it is kept for newcomers
+		t.EventBroadcast("", pk)
+	}
 }
 
 func (t *Teamserver) SendEvent(id string, pk packager.Package) error {
